@@ -72,6 +72,7 @@ def r10_1(ctx):
                 out.ok(q, f"cache {mangled}: stale only through a callee that is reported itself", where=fn.where())
             else:
                 out.bad(q, f"may return with the cached {fsrc.strip('_')} stale (through its callees)", where=fn.where())
+        reported = set()
         # who may write: functions that are not methods of the class (or act on another instance)
         for q, fn in sorted(ctx.model.funcs.items()):
             inf = ctx.typer.of(fn)
@@ -97,9 +98,11 @@ def r10_1(ctx):
                     root = cc.root_writer(*via)
                     if kinds.get(root, (None,))[0] in affine.ISOMETRY and cc.exempt_isometries:
                         continue
-                out.bad(q, f"writes state of a {cls} (parameter `{e['param']}`) behind the cached {fsrc.strip('_')}: "
-                           f"{'direct write of ' + e['field'] if direct else e['field'] + ' via ' + root}",
-                        where=fn.where(e["node"]))
+                fact = (f"writes state of a {cls} (parameter `{e['param']}`) behind the cached {fsrc.strip('_')}: "
+                        f"{'direct write of ' + e['field'] if direct else e['field'] + ' via ' + root}")
+                if (q, fact) not in reported:
+                    reported.add((q, fact))
+                    out.bad(q, fact, where=fn.where(e["node"]))
     # dead caches (assigned None, never filled): reported as a note only
     for cls, (mod, node, bases) in ctx.model.classes.items():
         for n in ast.walk(node):
@@ -127,8 +130,31 @@ def _resets_children(ctx, fn, fsrc):
     return False
 
 
+def _holders(ctx, cls):
+    """classes from which an instance of cls is reachable through the field-type table (upward closure)"""
+    from verifkit.model import FIELD_TYPES
+    fam = set([cls] + ctx.model.subclasses(cls))
+    changed = True
+    while changed:
+        changed = False
+        for (c, f), t in FIELD_TYPES.items():
+            if c in fam:
+                continue
+            stack, inside = [t], set()
+            while stack:
+                x = stack.pop()
+                if isinstance(x, str):
+                    inside.add(x)
+                elif isinstance(x, tuple) and x:
+                    stack += list(x[1]) if x[0] in ("tup", "union") else [x[1]]
+            if inside & fam or any(set(ctx.model.subclasses(k)) & fam for k in inside if k in ctx.model.classes):
+                fam |= set([c] + ctx.model.subclasses(c))
+                changed = True
+    return fam | {c for c in ctx.model.classes if "Shape" in c and "JordanCurve" in fam}
+
+
 def _involves(ctx, t, cls):
-    holders = {cls} | {c for c in ctx.model.classes if "Shape" in c}
+    holders = _holders(ctx, cls)
     if isinstance(t, str):
         return t in holders
     if isinstance(t, tuple) and t:
